@@ -41,6 +41,9 @@ type wcfg struct {
 
 func (c wcfg) state() ws.State { return stateOf(c.side) | c.flags }
 
+// emptyWriterPool has the geometry of wsutil's writer pool (pool.New(128, 65536)) and never holds anything.
+var emptyWriterPool = pool.New(128, 65536)
+
 var stateFlags = []ws.State{0, ws.StateExtended, ws.StateFragmented, ws.StateExtended | ws.StateFragmented}
 
 func stateOf(s ref.Side) ws.State {
@@ -187,8 +190,11 @@ func subWriterReset() mon.Sub {
 				hdst.Err = errors.New("boom")
 			}
 			var a *wsutil.Writer
-			if mode == "PutGet" {
+			if mode == "PutGet" && c.Rng.Intn(2) == 0 {
 				a = wsutil.GetWriter(hdst, hcfg.state(), ws.OpCode(hcfg.op), 128<<uint(c.Rng.Intn(4)))
+			} else if mode == "PutGet" {
+				// a writer that was NOT born in the pool is handed to PutWriter as well
+				a = wsutil.NewWriterSize(hdst, hcfg.state(), ws.OpCode(hcfg.op), []int{100, 120, 130, 200, 500, 1000, 2000, 5000}[c.Rng.Intn(8)])
 			} else {
 				a = wsutil.NewWriterSize(hdst, hcfg.state(), ws.OpCode(hcfg.op), size)
 			}
@@ -212,12 +218,19 @@ func subWriterReset() mon.Sub {
 			case "PutGet":
 				sz := a.Size()
 				wsutil.PutWriter(a)
-				a2 := wsutil.GetWriter(adst, ncfg.state(), ws.OpCode(ncfg.op), sz)
-				// (the writer pool only keeps writers whose Size() is an exact class size; otherwise
-				// GetWriter builds a new one - either way the result must behave as new)
+				// the request: the old writer's Size(), the class above it, or an unrelated class
+				n := []int{sz, 2 * sz, 128 << uint(c.Rng.Intn(7))}[c.Rng.Intn(3)]
+				if n > 65536 {
+					n = 65536
+				}
+				a2 := wsutil.GetWriter(adst, ncfg.state(), ws.OpCode(ncfg.op), n)
+				// Whether or not the pool hands the old object back, the result must behave like the writer
+				// GetWriter builds when its pool is empty: NewWriterBufferSize of the class size that an
+				// EMPTY pool of the same geometry reports for n.
 				sameObject = a2 == a
 				a = a2
-				b = freshLike(a, bdst, ncfg)
+				_, m := emptyWriterPool.Get(n)
+				b = wsutil.NewWriterBufferSize(bdst, ncfg.state(), ws.OpCode(ncfg.op), m)
 			case "ResetOp":
 				// keeps destination, state, extensions and flush mode; drops unflushed fragments
 				ncfg = wcfg{side: hcfg.side, op: ncfg.op, noFlush: hcfg.noFlush, ext: hcfg.ext, flags: hcfg.flags}
